@@ -9,7 +9,7 @@ from common import Ctx
 ID = "C02"
 PROPS = ["props/C02.v"]
 EXTRACTS = ["Solver"]
-THEOREMS = ['C02_emitted_only_reachable', 'C02_traversal_exact_when_checker_accepts', 'C02_closure_checker_sound', 'C02_refuted_unsolved_in_output', 'C02_refuted_extra_dropped']
+THEOREMS = ['C02_emitted_only_reachable', 'C02_traversal_exact_when_checker_accepts', 'C02_closure_checker_sound', 'C02_refuted_unsolved_in_output', 'C02_requested_extra_is_expanded']
 MODES = ['calm', 'conflict', 'extras', 'extras', 'dense', 'cascade']
 RULE = ("universes (2-6 projects x 1-4 versions incl. pre/post/dev releases, requirements with the 7 operators, "
         "wildcards, extras, extra- and environment-markers, cycles, unreadable files, misnamed files), 1-3 input files, "
@@ -20,7 +20,7 @@ RULE = ("universes (2-6 projects x 1-4 versions incl. pre/post/dev releases, req
         "distinct = distinct (universe, inputs, constraints, options).")
 TRUSTED_BASE = SP.TRUSTED_BASE
 ASSUMPTIONS = SP.ASSUMPTIONS
-LEVEL_TEXT = "Soundness (for all graphs) of the executable closure checker evaluated on every correspondence outcome; the full statement is refuted by vm_compute witnesses replayed on /repo (a successful run that leaves an input's project unsolved; a requested extra dropped by edge-reason overwrite). Closure/minimality of the unchanged code therefore holds only on the runs where the checker says so; the solver model itself is tied to /repo by whole-compile correspondence (emitted set included)."
+LEVEL_TEXT = "Soundness (for all graphs) of the executable closure checker evaluated on every correspondence outcome; the full statement is refuted by vm_compute witnesses replayed on /repo (a successful run that leaves an input's project unsolved); the second former counter-example (a requested extra dropped by edge-reason overwrite) is repaired in /repo and kept as a positive witness. Closure/minimality of the unchanged code therefore holds only on the runs where the checker says so; the solver model itself is tied to /repo by whole-compile correspondence (emitted set included)."
 LEVEL_NOTE = ("Trusted: Coq kernel, extraction, OCaml drivers, T1/T2 harness, packaging semantics (validated by the C17 grid), the "
               "measured set-iteration and marker oracles. Modelled, not verified: compile.py, dists.py, versions.py, containers.py.")
 TECHNIQUE = "Rocq theorems on a Gallina model of the solver + vm_compute refutation witnesses + extraction-based whole-compile differential correspondence"
